@@ -173,6 +173,35 @@ def c14b(e):
         return "identifier of a returned record changed"
 
 
+def sc_lin(e):
+    if e.get("ev") == "scores" and e["o"]["op"] == "iter_ends" and any(v >= 0 for v in e["obs"]["y"]):
+        i = next(i for i, v in enumerate(e["obs"]["y"]) if v >= 0)
+        e["obs"]["y"][i] += 1
+        return "one value yielded by the score iterator + 1"
+
+
+def sc_lin2(e):
+    if e.get("ev") == "scores" and e["o"]["op"] == "resize" and e["o"]["r"] > 0:
+        e["post"]["nv"] += 1
+        return "valid positions after resize + 1"
+
+
+def sc_red(e):
+    if e.get("ev") == "scores" and e["o"]["op"] == "threshold" and len(e["obs"]) >= 1:
+        e["obs"] = e["obs"][:-1]
+        return "one threshold offset lost"
+
+
+def sc_red2(e):
+    if e.get("ev") == "scores" and e["o"]["op"] == "max" and e["obs"]:
+        e["obs"][0] -= 1
+        return "maximum of the score table - 1"
+
+
+# recorders of objects shared by several properties (P["also_record"] of the lmconform package): label -> mode, trace, tests
+OBJECTS = {"scores-linear": dict(trace="Trace_Scores", tests=[("corrupt", sc_lin), ("corrupt", sc_lin2), ("drop", lambda e: e.get("ev") == "scores" and e["o"]["op"] == "fill")]),
+           "scores-reduce": dict(trace="Trace_Scores", tests=[("corrupt", sc_red), ("corrupt", sc_red2)])}
+
 MUT2 = dict(C08=c08b, C03=c03b, C10=c10b, C13=c13b, C19=c19b, C14=c14b)
 
 MUT = dict(C01=c01, C02=c02, C03=c03, C04=c04, C05=c05, C06=c06, C07=c07, C08=c08, C09=c09, C10=c10, C11=c11, C12=c12,
@@ -184,7 +213,7 @@ DROP = dict(C02=lambda e: e.get("ev") == "next" and e.get("ret") == "hit",
 
 
 def main(args):
-    ids = args or sorted(MUT)
+    ids = args or (sorted(MUT) + sorted(OBJECTS))
     work = os.path.join(lmv.VERIF, "work", "selftest-%d" % os.getpid())
     shutil.rmtree(work, ignore_errors=True)
     os.makedirs(work)
@@ -192,7 +221,7 @@ def main(args):
     try:
         bins = {}
         for pid in ids:
-            P = props.PROPS[pid]
+            P = props.PROPS[pid] if pid in props.PROPS else dict(trace=OBJECTS[pid]["trace"])
             pkg = P.get("package", "lmconform")
             if pkg not in bins:
                 bins[pkg], _ = lmv.build_harness(False, pkg)
@@ -203,7 +232,7 @@ def main(args):
                 failed += 1
                 continue
             hists = lmv.split_histories(nd)
-            tests = [("corrupt", MUT[pid])]
+            tests = [("corrupt", MUT[pid])] if pid in MUT else list(OBJECTS[pid]["tests"])
             if pid in MUT2:
                 tests.append(("corrupt", MUT2[pid]))
             if pid in DROP:
